@@ -388,6 +388,110 @@ example : (setupOptimizer exMkPrior exFileInit exFileFitting []).2.1 = .ok ∧
 
 end file
 
+/-! ### the scripting route: the optimizer's own setters in any order, then `compile_params` / `update_model` -/
+
+section api
+open Taurex.OptimizerSM Taurex.C07
+
+/-- **Default priors derive from the CURRENT bounds and mode — after any calls, in any order, any number of compilations.**
+    From any well-formed optimizer state run any history of `enable_fit` / `disable_fit` / `set_mode` / `set_boundary` /
+    `set_factor_boundary` / `set_prior` / `compile_params` / `update_model` calls, then compile: the result is `implied` of the
+    settings as they are NOW, in which a fitted parameter `p` (of the model or of the observation, `o`)
+      * that has no explicit prior gets the default prior of the mode and bounds its tuple holds now
+        (`Uniform(bounds)` / `LogUniform(lin_bounds=bounds)`), whatever an earlier compilation derived for it, and
+      * that was given a prior with `set_prior` is fitted with that prior. -/
+theorem api_prior_after_history (init : St String ℝ) (hwf : WF init) (ops : List (Op String ℝ)) :
+    (view (run init (ops ++ [.compile])), (step (run init ops) .compile).2) = implied (settings (run init ops)) ∧
+    ∀ (o : Owner) (p : Param String ℝ),
+      (tget (run init ops).userPriors p.name = none →
+        impliedRow (run init ops).userPriors o p = (defaultPrior p.mode p.b0 p.b1).map (fun pr => (entryOf o p, pr))) ∧
+      (∀ pr, tget (run init ops).userPriors p.name = some pr →
+        impliedRow (run init ops).userPriors o p = some (entryOf o p, pr)) := by
+  refine ⟨?_, fun o p => ⟨fun h => by simp [impliedRow, h], fun pr h => by simp [impliedRow, h]⟩⟩
+  rw [run_append]
+  simp only [run]
+  exact compile_eq_implied (run init ops) (WF_run init ops hwf)
+
+/-- **Only `set_prior` touches the explicit priors.**  Every other call — the bound / mode / fit setters, a compilation, a
+    write of a parameter vector — leaves the table of explicit priors as it is: an explicit prior given BEFORE
+    `set_boundary` (…) is still the parameter's prior afterwards, and no compilation adds a derived default to it. -/
+theorem explicit_priors_changed_by_set_prior_only (s : St String ℝ) (op : Op String ℝ)
+    (h : ∀ n p, op ≠ .setPrior n p) : (step s op).1.userPriors = s.userPriors := by
+  cases op with
+  | setPrior n p => exact absurd rfl (h n p)
+  | enableFit n => simp only [step, withParam]; split <;> cases ownerOf s n <;> rfl
+  | disableFit n => simp only [step, withParam]; split <;> cases ownerOf s n <;> rfl
+  | setBoundary n a b => simp only [step, withParam]; split <;> cases ownerOf s n <;> rfl
+  | setFactorBoundary n a b => simp only [step, withParam]; split <;> cases ownerOf s n <;> rfl
+  | setMode n m =>
+    simp only [step]
+    split
+    · split
+      · rfl
+      · cases ownerOf s n <;> rfl
+    · rfl
+  | enableDerived n => simp only [step, withDerived]; split <;> [rfl; (split <;> rfl)]
+  | disableDerived n => simp only [step, withDerived]; split <;> [rfl; (split <;> rfl)]
+  | compile =>
+    simp only [step, compile]
+    split
+    · rfl
+    · split <;> rfl
+  | updateModel v =>
+    simp only [step, updateModel]
+    split
+    · rfl
+    · have := frame_applyUpdate s.compiled s s.compiledPriors v
+      simp only [frame, Prod.mk.injEq] at this
+      exact this.2.2.2.2.1
+
+/-- **The model receives `prior.prior(x)` — `10 ** x` for the log-space classes, `x` for the others — whatever the
+    parameter's declared mode.**  After any history from a fresh optimizer, a vector of the right length writes to the
+    parameter of row `i` the back-transform of ITS PRIOR (`Prior.back`), not of its tuple's mode. -/
+theorem api_back_through_prior (model obs : List (Param String ℝ)) (hwf : WF (initSt model obs [] []))
+    (ops : List (Op String ℝ)) (v : List ℝ)
+    (hlen : v.length = (run (initSt model obs [] []) ops).compiled.length) :
+    let s := run (initSt model obs [] []) ops
+    (step s (.updateModel v)).2 = .ok ∧
+    ∀ epx ∈ s.compiled.zip (s.compiledPriors.zip v),
+      getValue (step s (.updateModel v)).1 epx.1.owner epx.1.name = some (epx.2.1.back epx.2.2) := by
+  intro s
+  obtain ⟨_, hk, hex⟩ := Inv_run ops (initSt model obs [] []) hwf (by simp [C07.Inv, initSt, keys])
+  simp only [step, updateModel]
+  have : ¬ v.length ≠ s.compiled.length := by simpa using hlen
+  simp only [this, if_false, true_and]
+  exact getValue_applyUpdate_set s.compiled s s.compiledPriors v hk hex
+
+/-- `set_mode` accepts any spelling of the two modes and stores the mode it names -/
+example : parseMode "LOG" = some FitMode.log ∧ parseMode "Log" = some FitMode.log ∧ parseMode "Linear" = some FitMode.linear ∧
+    parseMode "lg" = none := by decide +kernel
+
+/-- non-vacuity: `T` is given a Gaussian prior and its boundaries are set AFTERWARDS, `H2O` is switched to log space with
+    the spelling `LOG`; the history is well-formed, `T` still has its explicit prior (second rule of
+    `api_prior_after_history`), `H2O` has none (first rule: `LogUniform(lin_bounds=(1, 100))`), and no call but `set_prior`
+    is excluded by `explicit_priors_changed_by_set_prior_only` -/
+noncomputable def exApiInit : St String ℝ :=
+  initSt [⟨"T", .linear, true, 100, 2000, 1500⟩] [⟨"H2O", .linear, true, 1, 100, 10⟩] [] []
+
+noncomputable def exApiOps : List (Op String ℝ) :=
+  [.setPrior "T" (.gaussian 1500 100), .setBoundary "T" 5 50, .setMode "H2O" "LOG"]
+
+example : WF exApiInit ∧
+    tget (run exApiInit exApiOps).userPriors "T" = some (.gaussian 1500 100) ∧
+    tget (run exApiInit exApiOps).userPriors "H2O" = none ∧
+    (run exApiInit exApiOps).model = [⟨"T", .linear, true, 5, 50, 1500⟩] ∧
+    (run exApiInit exApiOps).obs = [⟨"H2O", .log, true, 1, 100, 10⟩] := by
+  have m1 : parseMode "LOG" = some FitMode.log := by decide +kernel
+  simp [WF, exApiInit, exApiOps, initSt, names, run, step, withParam, ownerOf, hasName, table, setTable, modifyParam, tset,
+    tget, m1]
+
+example : ∀ n p, (Op.setBoundary "T" (5 : ℝ) 50 : Op String ℝ) ≠ .setPrior n p := by intro n p h; cases h
+
+/-- non-vacuity of `api_back_through_prior`: a log-space prior on a linear-mode row hands `10 ** x` to the model -/
+example : (Prior.logUniform (2 : ℝ) 4).back 3 = pow10 3 := by simp [Prior.back, Prior.mode]
+
+end api
+
 /-! ### prior text -/
 
 /-- print/parse round trip at token level: for every call (any name, any keyword list, numbers carried as literal
